@@ -215,6 +215,20 @@ func checkC02(c *Ctx) {
 			}
 		}
 	}
+	// the key store of one machine fails while it handles the last operation of the ceremony
+	for _, nt := range cases {
+		if nt.N > c.Pick(3, 5) {
+			continue
+		}
+		for dev := 0; dev < nt.N; dev++ {
+			if !c.Thorough() && dev != (nt.N+nt.T+int(c.Seed))%nt.N {
+				continue
+			}
+			for pos := 0; pos < 3; pos++ {
+				jobs = append(jobs, job{nt.N, nt.T, 0, "keystore-fails", dev, pos})
+			}
+		}
+	}
 	Parallel(len(jobs), 16, func(i int) {
 		jb := jobs[i]
 		seed := c.Seed*7919 + uint64(i)*31 + uint64(jb.rep)
@@ -327,6 +341,44 @@ func runC02Deviant(c *Ctx, n, t int, family string, dev, pos int, seed uint64, w
 		res.ResultMsgs[0].Data, _ = json.Marshal(r)
 		rewritten = true
 		return res
+	}
+	if family == "keystore-fails" {
+		// not a deviating participant but a fault: the machine's key store goes away right before the last
+		// operation is handled (medium unplugged / full / read-only) and is back afterwards; the operator
+		// carries whatever result file the machine produced to the node, as usual
+		w.ResultHook = nil
+		w.ColdHook = func(nd *world.Node, op *types.Operation) (*types.Operation, error) {
+			if string(op.Type) != OpMasterKey || nd.Idx != dev || rewritten || nd.Cold == nil {
+				return nil, nil
+			}
+			rewritten = true
+			world.CloseColdDB(nd.Cold)
+			res, rerr := func() (r *types.Operation, e error) {
+				defer func() {
+					if p := recover(); p != nil {
+						e = fmt.Errorf("PANIC in the machine: %v", p)
+					}
+				}()
+				return w.ColdResult(nd, op, false)
+			}()
+			nm, err := world.OpenCold(nd.ColdDir, nd.Mnemonic, world.Password)
+			if err != nil {
+				c.Inconclusive("keystore-fails: the machine does not reopen: %v", err)
+				return res, rerr
+			}
+			nd.AbandonCold(nm)
+			wit["machine_result"] = fmt.Sprintf("%v / %v", func() interface{} {
+				if res != nil {
+					return res.Event
+				}
+				return nil
+			}(), rerr)
+			if rerr != nil {
+				// no result file at all: the operator has nothing to carry back
+				return nil, rerr
+			}
+			return res, nil
+		}
 	}
 	// position of the deviant announcement among the n announcements
 	want := []int{0, (n - 1) / 2, n - 1}[pos]
